@@ -550,7 +550,13 @@ class Extractor:
             elif name in ("core::iter::traits::iterator::Iterator::try_for_each", "core::iter::traits::iterator::Iterator::for_each") and len(args) >= 2 \
                     and isinstance(args[1], tuple) and args[1][0] == "agg" and isinstance(args[1][1], tuple) and args[1][1][0] == "closure" and args[1][1][1] in self.prog.bodies:
                 # the closure runs once per item: its output grammar, repeated
-                sub = Extractor(self.env, args[1][1][1], "w", None, None, follow=self.follow).run()
+                sub = Extractor(self.env, args[1][1][1], "w", None, None, follow=self.follow)
+                sub.inline, sub.inline_depth, sub.inline_blocks, sub.inline_pred = self.inline, self.inline_depth, self.inline_blocks, self.inline_pred
+                sub.run()
+                if sub.entered:
+                    followed_ = {self.prog.bodies[k].pretty for k in sub.entered}
+                    sub.paths = [tuple(x for x in p if not (x[0] == "call" and x[1] in followed_)) for p in sub.paths]
+                    self.entered |= sub.entered
                 bodies = {tuple(x for x in p if x[0] not in ("when", "returns", "end", "final", "probe")) for p in ok_paths(sub)}
                 bodies = {b for b in bodies if b}
                 if sub.unmodelled:
@@ -656,6 +662,10 @@ class Extractor:
             return [self.value_token(ity + order if ity not in ("u8", "i8") else ity, S, x)]
         if isinstance(v, tuple) and v[0] == "agg" and v[1] == "array" and v[3] and len(v[3]) <= 64:
             return [self.value_token("u8", S, e) for e in v[3]]
+        # a constant byte array (a named const such as  const END: [u8; 3] = [0, 0, 9]) is its bytes
+        c = const_of(v) if is_const(v) else None
+        if isinstance(c, tuple) and c and c[0] == "b" and len(c[1]) <= 64:
+            return [("u8", "const", b) for b in c[1]]
         return None
 
     def render_arg(self, S, x):
@@ -810,7 +820,19 @@ def trace(env, key, mode="w", entry=None, probe=None, inline=True):
 
 
 def ok_paths(ex):
-    return [p for p in ex.paths if p and p[-1][0] == "end" and p[-1][1] in ("ok", "ret", "ok|err")]
+    """paths that end in the success variant; where the function's own code cannot tell (it hands back the Result of a callee that was
+    followed in place) the value returned on the path decides: an Err built on the path or an error handed up by `?` is not a success"""
+    out = []
+    for p in ex.paths:
+        if not (p and p[-1][0] == "end" and p[-1][1] in ("ok", "ret", "ok|err")):
+            continue
+        if p[-1][1] == "ok|err":
+            rets = [t for t in p if t[0] == "returns"]
+            txt = str(rets[-1][1]) if rets else ""
+            if txt.startswith("Err(") or "from_residual" in txt:
+                continue
+        out.append(p)
+    return out
 
 
 def strip(path, keep=("u8", "u16be", "u24be", "u32be", "u32le", "u16le", "u24le", "f64be", "u64be", "bytes", "call", "again", "read", "read_exact", "read_upto", "when", "unmodelled")):
